@@ -65,7 +65,8 @@ def run(F, S, R, tier):
         else:
             R.bad("order/delete-unverified/single", "delete_unverified_block no longer uses exactly one transaction and one commit", [du.where()])
         ib = F.need("ckb_chain::chain_service::ChainService::insert_block")
-        K.mustcall(R, "mustcall/store-commit", ib, [ST + "insert_block$", ST + "commit$"], S, what="block storage is one committed transaction")
+        K.mustcall(R, "mustcall/store-commit", ib, [ST + "insert_block$", ST + "commit$"], S, assume=[(r"ChainDB::is_block_stored$", False)],
+                   what="block storage is one committed transaction (a hash already in the header column is not written again, F26)")
     R.guard("atomic", commit_discipline)
 
     # ---------------------------------------------------------------- 2. the unverified marker
